@@ -118,5 +118,31 @@ CLAIMED.update({
         "technique": TECH,
     },
 })
+CLAIMED.update({
+    "C09": {
+        "text": "Props/C09.v proves for every geometry, write policy, replacement policy, penalty and every history of accepted operations "
+                "that the modelled data cache's tag directory, hit decisions, (hits, accesses, last_hit) after every operation and the "
+                "per-operation cycle penalty equal those of the tag-only reference cache Spec/RefCache.v (write-back: write-allocate; "
+                "write-through: no-write-allocate); uncounted reads and direct (parser) writes leave the counters untouched; rejected "
+                "operations are characterised exactly; an uncounted re-read of the address just read leaves the whole cache state "
+                "unchanged (the single-cycle display re-read). Tied to the code by comparing directory, counters and penalties after "
+                "every operation; the implementation is also compared with an independent reference cache in the harness, and the "
+                "data-cache counters of single-cycle and five-stage runs of the same program are compared (this program-level clause "
+                "is decided differentially, not proved).",
+        "note": NOTE_COMMON + "Replacement-policy correctness is property C10; rejected accesses are outside the accounting claim.",
+        "technique": TECH,
+    },
+    "C11": {
+        "text": "Props/C11.v proves for every geometry and policy: an instruction-cache invariant (every valid block holds exactly the "
+                "instructions of its block, empty slots past the program end) preserved by every fetch; every aligned fetch returns the "
+                "instruction of the uncached memory, over any fetch history; each fetch counts one access, hits as the reference cache "
+                "decides, penalty exactly on a miss; a reset gives the state of a fresh cache whatever was fetched before. Tied to the "
+                "code inside whole-program runs of both modes (registers, memory, output, pc, instruction-cache counters and cycles after "
+                "every step); directly: results with and without the cache, counters against a reference cache fed the fetch addresses, "
+                "one fetch per executed instruction in single-cycle mode, and no stale block or counter after load_program.",
+        "note": NOTE_COMMON + "That program results are independent of the instruction cache is checked differentially (the proof covers fetch transparency).",
+        "technique": TECH,
+    },
+})
 _PENDING = "check not built yet (model/theorems under construction); see DESIGN.md section 9"
 NOT_APPLICABLE = {f"C{i:02d}": _PENDING for i in range(1, 21) if f"C{i:02d}" not in CLAIMED}
